@@ -870,6 +870,95 @@ fn cmd_pageops() {
     println!("{{\"cmd\":\"pageops\",\"bound\":\"one 3-page source (multi-stream contents, two levels of inherited MediaBox/Rotate, own attributes); 9 extractions, split+merge, reverse, 4 rotations; one page with MediaBox [10 20 210 320] and a CropBox\",\"evaluated\":{},\"disagreements\":[{}],\"origin_wrong\":{},\"origin_examples\":[{}]}}", evaluated + 1, bad.borrow().join(","), origin_wrong.len(), origin_wrong.join(","));
 }
 
+// C23 Eb: the standard security handler against an independent transcription of ISO 32000-1 Algorithms 2, 3, 4/5 (revisions 2-3,
+// key lengths 5..16 bytes) and ISO 32000-2 Algorithm 2.B (revision 6), written here from the standards on top of the md5 / sha2 /
+// aes primitives: same /O, file key, /U and R6 hash for every password in a generated list.
+fn ref_rc4(key: &[u8], data: &[u8]) -> Vec<u8> {
+    let mut s: Vec<u8> = (0..=255u8).collect(); let mut j = 0u8;
+    for i in 0..256 { j = j.wrapping_add(s[i]).wrapping_add(key[i % key.len()]); s.swap(i, j as usize); }
+    let (mut i, mut j) = (0u8, 0u8);
+    data.iter().map(|b| { i = i.wrapping_add(1); j = j.wrapping_add(s[i as usize]); s.swap(i as usize, j as usize); b ^ s[(s[i as usize].wrapping_add(s[j as usize])) as usize] }).collect()
+}
+const REF_PAD: [u8; 32] = [0x28, 0xBF, 0x4E, 0x5E, 0x4E, 0x75, 0x8A, 0x41, 0x64, 0x00, 0x4E, 0x56, 0xFF, 0xFA, 0x01, 0x08, 0x2E, 0x2E, 0x00, 0xB6, 0xD0, 0x68, 0x3E, 0x80, 0x2F, 0x0C, 0xA9, 0xFE, 0x64, 0x53, 0x69, 0x7A];
+fn ref_pad(pw: &[u8]) -> Vec<u8> { let mut v: Vec<u8> = pw.iter().take(32).cloned().collect(); let k = v.len(); v.extend_from_slice(&REF_PAD[..32 - k]); v }
+fn ref_alg3_owner(owner: &[u8], user: &[u8], rev: u8, n: usize) -> Vec<u8> {
+    let mut h = md5::compute(ref_pad(if owner.is_empty() { user } else { owner })).0.to_vec();
+    if rev >= 3 { for _ in 0..50 { h = md5::compute(&h).0.to_vec(); } }
+    let key = &h[..n];
+    let mut out = ref_rc4(key, &ref_pad(user));
+    if rev >= 3 { for i in 1..=19u8 { let k: Vec<u8> = key.iter().map(|b| b ^ i).collect(); out = ref_rc4(&k, &out); } }
+    out
+}
+fn ref_alg2_key(user: &[u8], o: &[u8], p: u32, id: &[u8], rev: u8, n: usize) -> Vec<u8> {
+    let mut d = ref_pad(user); d.extend_from_slice(o); d.extend_from_slice(&p.to_le_bytes()); d.extend_from_slice(id);
+    let mut h = md5::compute(&d).0.to_vec();
+    if rev >= 3 { for _ in 0..50 { h = md5::compute(&h[..n]).0.to_vec(); } }
+    h[..n].to_vec()
+}
+fn ref_alg45_user(key: &[u8], id: &[u8], rev: u8) -> Vec<u8> {
+    if rev == 2 { return ref_rc4(key, &REF_PAD); }
+    let mut d = REF_PAD.to_vec(); d.extend_from_slice(id);
+    let mut out = ref_rc4(key, &md5::compute(&d).0);
+    for i in 1..=19u8 { let k: Vec<u8> = key.iter().map(|b| b ^ i).collect(); out = ref_rc4(&k, &out); }
+    out.extend_from_slice(&[0u8; 16]); out
+}
+fn ref_alg2b(password: &[u8], salt: &[u8], u: &[u8]) -> Vec<u8> {
+    use aes::cipher::{BlockEncrypt, KeyInit, generic_array::GenericArray};
+    use sha2::{Digest, Sha256, Sha384, Sha512};
+    let mut k: Vec<u8> = { let mut h = Sha256::new(); h.update(password); h.update(salt); h.update(u); h.finalize().to_vec() };
+    let mut round = 0u32;
+    loop {
+        let mut k1: Vec<u8> = Vec::new(); for _ in 0..64 { k1.extend_from_slice(password); k1.extend_from_slice(&k); k1.extend_from_slice(u); }
+        // AES-128-CBC, no padding, key = K[0..16], IV = K[16..32]
+        let cipher = aes::Aes128::new(GenericArray::from_slice(&k[..16])); let mut prev: [u8; 16] = k[16..32].try_into().unwrap(); let mut e = Vec::with_capacity(k1.len());
+        for blk in k1.chunks(16) { let mut b = [0u8; 16]; for i in 0..16 { b[i] = blk[i] ^ prev[i]; } let mut ga = GenericArray::clone_from_slice(&b); cipher.encrypt_block(&mut ga); prev.copy_from_slice(&ga); e.extend_from_slice(&ga); }
+        let m: u32 = e[..16].iter().map(|b| *b as u32).sum::<u32>() % 3;
+        k = match m { 0 => Sha256::digest(&e).to_vec(), 1 => Sha384::digest(&e).to_vec(), _ => Sha512::digest(&e).to_vec() };
+        round += 1;
+        if round >= 64 && (*e.last().unwrap() as u32) <= round - 32 { break; }
+    }
+    k[..32].to_vec()
+}
+fn cmd_crypto_ref(npw: usize) {
+    use oxidize_pdf::encryption::{compute_hash_r6_algorithm_2b, OwnerPassword, Permissions, SecurityHandlerRevision, StandardSecurityHandler, UserPassword};
+    let mut evaluated = 0u64; let mut bad: Vec<String> = vec![];
+    let hexs = |b: &[u8]| -> String { b.iter().map(|x| format!("{x:02x}")).collect() };
+    let id: Vec<u8> = (1..=16u8).collect();
+    let mut perms = Permissions::new(); perms.set_print(true);
+    let pws: Vec<String> = (0..npw).map(|i| match i % 4 { 0 => format!("password-{i}"), 1 => format!("pw{i}"), 2 => "x".repeat(i % 40), _ => format!("A much longer pass phrase number {i} that exceeds thirty-two bytes") }).collect();
+    for (rev, sr) in [(2u8, SecurityHandlerRevision::R2), (3u8, SecurityHandlerRevision::R3)] {
+        for n in if rev == 2 { vec![5usize] } else { vec![5usize, 7, 10, 13, 15, 16] } {
+            let handler = StandardSecurityHandler { revision: sr, key_length: n };
+            for (i, pw) in pws.iter().enumerate().take(npw.min(24)) {
+                evaluated += 1;
+                let user = UserPassword(pw.clone()); let owner = OwnerPassword(format!("owner-{i}"));
+                let r = panic::catch_unwind(|| -> Result<(Vec<u8>, Vec<u8>, Vec<u8>), String> {
+                    let o = handler.compute_owner_hash(&owner, &user);
+                    let key = handler.compute_encryption_key(&user, &o, perms, Some(&id)).map_err(|e| e.to_string())?;
+                    let u = handler.compute_user_hash(&user, &o, perms, Some(&id)).map_err(|e| e.to_string())?;
+                    Ok((o, key.as_bytes().to_vec(), u))
+                });
+                let ro = ref_alg3_owner(owner.0.as_bytes(), pw.as_bytes(), rev, n);
+                let rk = ref_alg2_key(pw.as_bytes(), &ro, perms.bits(), &id, rev, n);
+                let ru = ref_alg45_user(&rk, &id, rev);
+                let ok = match &r { Ok(Ok((o, k, u))) => *o == ro && *k == rk && u[..16] == ru[..16], _ => false };
+                if !ok && bad.len() < 6 { bad.push(format!("{{\"revision\":{rev},\"key_bytes\":{n},\"user_password\":{},\"expected\":{},\"got\":{}}}", js(pw), js(&format!("O={} key={} U={}", hexs(&ro), hexs(&rk), hexs(&ru[..16]))), js(&format!("{:?}", r.map(|x| x.map(|(o, k, u)| format!("O={} key={} U={}", hexs(&o), hexs(&k), hexs(&u[..16.min(u.len())])))).map_err(|_| "PANIC"))))); }
+            }
+        }
+    }
+    let salt = [0x10u8, 0x21, 0x32, 0x43, 0x54, 0x65, 0x76, 0x87];
+    for pw in &pws {
+        for u in [vec![], (0..48u8).collect::<Vec<u8>>()] {
+            evaluated += 1;
+            let got = compute_hash_r6_algorithm_2b(pw.as_bytes(), &salt, &u);
+            let want = ref_alg2b(pw.as_bytes(), &salt, &u);
+            let ok = matches!(&got, Ok(g) if *g == want);
+            if !ok && bad.len() < 6 { bad.push(format!("{{\"algorithm\":\"2.B\",\"password\":{},\"u_len\":{},\"expected\":\"{}\",\"got\":{}}}", js(pw), u.len(), hexs(&want), js(&format!("{:?}", got.map(|g| hexs(&g)).map_err(|e| e.to_string()))))); }
+        }
+    }
+    println!("{{\"cmd\":\"crypto-ref\",\"bound\":\"Algorithms 2/3/4/5 for R2 (5-byte key) and R3 (5,7,10,13,15,16-byte keys) x 24 passwords; Algorithm 2.B for {npw} passwords x 2 /U inputs; reference transcribed from ISO 32000-1/-2 on md5/sha2/aes\",\"evaluated\":{},\"disagreements\":[{}]}}", evaluated, bad.join(","));
+}
+
 fn cmd_fmt() {
     // Ec: the concrete contracts of the R6 formatting stubs used by Verus units, over all 256 bytes
     let hd = |n: u8| if n < 10 { b'0' + n } else { b'A' + n - 10 };
@@ -1361,6 +1450,7 @@ fn main() {
         Some("a85hex-roundtrip") => cmd_a85hex_roundtrip(args.get(2).and_then(|s| s.parse().ok()).unwrap_or(4)),
         Some("fmt") => cmd_fmt(),
         Some("opnames") => cmd_opnames(),
+        Some("crypto-ref") => cmd_crypto_ref(args.get(2).and_then(|s| s.parse().ok()).unwrap_or(120)),
         Some("pageops") => cmd_pageops(),
         Some("cmap") => cmd_cmap(args.get(2).and_then(|s| s.parse().ok()).unwrap_or(2)),
         Some("pagetree") => cmd_pagetree(args.get(2).and_then(|s| s.parse().ok()).unwrap_or(2)),
